@@ -94,9 +94,11 @@ SMALL_FAMILIES = ("1x1-open", "1x1-glued", "1x2-open", "1x2-glued", "2x1-open", 
 
 
 def bfs_depths(tier):
+    """quick: depth 4 everywhere (6.6e4 checked operations, ~10 s).  thorough: 6 on the 1-/2-root families, 5 on the others (about 1.2e6
+    checked operations, ~5 min on 16 cores; measured: depth 7 on 1x1 adds ~9e5 operations / 200 s)."""
     if tier == "quick":
-        return {n: 3 for n in FAMILIES}
-    return {n: (5 if n in SMALL_FAMILIES else 4) for n in FAMILIES}
+        return {n: 4 for n in FAMILIES}
+    return {n: (6 if n in SMALL_FAMILIES else 5) for n in FAMILIES}
 
 
 # =====================================================================================================
@@ -156,7 +158,6 @@ def view_json(leaves):
 C02_CLAUSES = ("no-raise", "tiling", "levels-dyadic", "leaf-bookkeeping", "glob-idx-unique", "vertex-unique",
                "edge-elem", "one-irregular", "minimal", "reference-agreement")
 C10_CLAUSES = ("no-raise", "nbrs-no-raise", "nbrs-exact", "nbrs-symmetric", "nbrs-boundary", "nbr-edge-symmetric")
-PAIRWISE_LIMIT = 150     # O(n^2) overlap test only up to this many leaves (area + reference equality beyond)
 
 
 def _geo_view(init, leaves):
@@ -284,14 +285,11 @@ def well_formed(mesh, init, expected=None, exact=True):
         if tot != ref.area(cyl) or any(not ref.contains(cyl, r) for r in rl):
             fail("tiling", "leaf area {} vs cylinder area {}".format(tot, ref.area(cyl)))
             tiling_ok = False
-        if len(rl) <= PAIRWISE_LIMIT:
-            rs = list(rl)
-            for i in range(len(rs)):
-                a = rs[i]
-                for j in range(i + 1, len(rs)):
-                    if ref.overlap_area_positive(a, rs[j]):
-                        fail("tiling", "leaves {} and {} overlap".format(rect_str(a), rect_str(rs[j])))
-                        tiling_ok = False
+        gv0 = _geo_view(init, rl).share_cache(expected)
+        pair = ref.overlapping_pair(gv0)
+        if pair is not None:
+            fail("tiling", "leaves {} and {} overlap".format(rect_str(pair[0]), rect_str(pair[1])))
+            tiling_ok = False
     if expected is not None:
         if set(rl) != set(expected.leaves):
             extra = sorted(set(rl) - set(expected.leaves))[:4]
@@ -305,7 +303,7 @@ def well_formed(mesh, init, expected=None, exact=True):
                         rect_str(r), lv, expected.leaves[r]))
 
     # -- neighbours (C10) and 1-irregularity
-    gv = _geo_view(init, rl) if (exact and tiling_ok) else None
+    gv = gv0 if (exact and tiling_ok) else None
     nb = {}
     for e in leaves:
         for k in range(4):
@@ -366,6 +364,8 @@ def op_json(op):
         return ["axis", rect_json(op[1]), op[2]]
     if op[0] == "refine":
         return ["refine", rect_json(op[1])]
+    if op[0] == "dorfler":
+        return ["dorfler", op[1], [list(e) if isinstance(e, (tuple, list)) else e for e in op[2]], op[3]]
     return [op[0]]
 
 
@@ -374,6 +374,8 @@ def op_parse(l):
         return ("axis", rect_parse(l[1]), int(l[2]))
     if l[0] == "refine":
         return ("refine", rect_parse(l[1]))
+    if l[0] == "dorfler":
+        return ("dorfler", l[1], tuple(tuple(e) if isinstance(e, list) else e for e in l[2]), float(l[3]))
     return (l[0],)
 
 
@@ -382,7 +384,17 @@ def op_short(op):
         return "{}{}".format("T" if op[2] == 0 else "X", rect_str(op[1]))
     if op[0] == "refine":
         return "TX" + rect_str(op[1])
+    if op[0] == "dorfler":
+        return "dorfler_{}(theta={})".format(op[1], op[3])
     return op[0]
+
+
+REAL_NAME = {"axis": "refine_axis", "refine": "refine", "uniform": "uniform_refine",
+             "uniform_space": "uniform_refine_space", "dorfler": "dorfler_refine"}
+
+
+def no_raise_clause(op):
+    return "no-raise" if op[0] == "axis" else REAL_NAME[op[0]] + "/no-raise"
 
 
 def describe_exception(e):
@@ -421,7 +433,35 @@ def reference_apply(view, op):
         for r in list(w.leaves):
             w.bisect(r, 1)
         return w, notes
+    if op[0] == "dorfler":           # first admissible tie-break; Run.apply selects among all of them
+        return next(dorfler_expected_all(view, op)), notes
     raise ValueError(op)
+
+
+def dorfler_expected_all(view, op):
+    """Reference results of a marking step, one per admissible tie-break of the marking rule."""
+    rects = sorted(view.leaves)
+    cands = marking_candidates(_dorfler_entries(rects, op[1], op[2]), op[3], cap=10 ** 4)
+    asc = _orders(view.leaves, random.Random(1))[0]
+    for m in cands:
+        yield dorfler_reference(view, op[1], m, asc)
+
+
+def _dorfler_entries(rects, variant, eta_sorted):
+    if variant == "isotropic":
+        return [(eta_sorted[i], (rects[i], 0)) for i in range(len(rects))]
+    return [(eta_sorted[i][ax], (rects[i], ax)) for i in range(len(rects)) for ax in (0, 1)]
+
+
+def _dorfler_eta_for(mesh, variant, eta_sorted):
+    """numpy indicator array in leaf_elements order from values aligned with the SORTED leaf rectangles."""
+    import numpy as np
+    elems = list(mesh.leaf_elements)
+    pos = {r: i for i, r in enumerate(sorted(elem_rect(e) for e in elems))}
+    idx = [pos[elem_rect(e)] for e in elems]
+    if variant == "isotropic":
+        return np.array([float(eta_sorted[i]) for i in idx], dtype=float)
+    return np.array([[float(eta_sorted[i][0]), float(eta_sorted[i][1])] for i in idx], dtype=float).reshape(-1, 2)
 
 
 def real_apply(mesh, op):
@@ -433,6 +473,12 @@ def real_apply(mesh, op):
         mesh.uniform_refine()
     elif op[0] == "uniform_space":
         mesh.uniform_refine_space()
+    elif op[0] == "dorfler":
+        eta = _dorfler_eta_for(mesh, op[1], op[2])
+        if op[1] == "isotropic":
+            mesh.dorfler_refine_isotropic(eta, op[3])
+        else:
+            mesh.dorfler_refine_anisotropic(eta, op[3])
     else:
         raise ValueError(op)
 
@@ -469,8 +515,12 @@ class Run:
         except (Exception, RecursionError) as e:
             self.broken = True
             tn, fn, text, ln = describe_exception(e)
-            bad.append(("no-raise", "{} raised {} in {} at `{}` (mesh.py:{})".format(op_short(op), tn, fn, text, ln)))
+            bad.append((no_raise_clause(op), "{} raised {} in {} at `{}` (mesh.py:{})".format(op_short(op), tn, fn, text, ln)))
             return bad
+        if op[0] == "dorfler":
+            # any tie-break among equal indicators is admissible: follow the one the real code took
+            rl = real_leaves(self.mesh)
+            expected = next((e for e in dorfler_expected_all(self.view, op) if e.leaves == rl), expected)
         self.view = expected
         if check:
             bad.extend(well_formed(self.mesh, self.init, expected))
@@ -544,4 +594,967 @@ def confirm(spec, clause):
     return code, bool(ns.get("violated"))
 
 
-#@@PART2@@
+# =====================================================================================================
+# 4. failure records
+# =====================================================================================================
+MAX_PER_CLAUSE = 5
+
+
+def _failure(group, clause, spec, detail, length):
+    return dict(group=group, clause=clause, spec=spec, detail=detail, length=length)
+
+
+class Findings:
+    """Per (group, clause): the few shortest distinct failing cases; per (group, clause): pass counters."""
+
+    def __init__(self):
+        self.fails = {}
+        self.checked = {}
+
+    def add_fail(self, f):
+        lst = self.fails.setdefault((f["group"], f["clause"]), [])
+        key = json.dumps(f["spec"], sort_keys=True)
+        if any(json.dumps(g["spec"], sort_keys=True) == key for g in lst):
+            return
+        lst.append(f)
+        lst.sort(key=lambda g: (g["length"], json.dumps(g["spec"], sort_keys=True)))
+        del lst[MAX_PER_CLAUSE:]
+
+    def merge_fails(self, fs):
+        for f in fs:
+            self.add_fail(f)
+
+    def mark_checked(self, group, clauses, n=1):
+        for c in clauses:
+            self.checked[(group, c)] = self.checked.get((group, c), 0) + n
+
+    def emit(self, chk, prop, clause_filter=None):
+        """DISCHARGED ob per clean (group, clause); FAILED ob (confirmed by replay) per distinct failure."""
+        n_failed = 0
+        failing = set()
+        # at most MAX_PER_CLAUSE reports per clause over all groups: shortest first, round-robin over groups
+        by_clause = {}
+        for (group, clause), lst in sorted(self.fails.items()):
+            if clause_filter is None or clause_filter(clause):
+                by_clause.setdefault(clause, []).append((group, list(lst)))
+        selected = {}
+        for clause, groups in by_clause.items():
+            groups.sort(key=lambda g: (g[1][0]["length"], g[0]))
+            picked, rnd = 0, 0
+            while picked < MAX_PER_CLAUSE and any(len(l) > rnd for _, l in groups):
+                for group, l in groups:
+                    if len(l) > rnd and picked < MAX_PER_CLAUSE:
+                        selected.setdefault((group, clause), []).append(l[rnd])
+                        picked += 1
+                rnd += 1
+            for group, l in groups:
+                failing.add((group, clause))
+        for (group, clause), lst in sorted(selected.items()):
+            for i, f in enumerate(lst):
+                code, ok = confirm(f["spec"], clause)
+                if not ok:
+                    chk.notes.append("explorer: failure {}/{} not confirmed by replay (dropped): {}".format(
+                        group, clause, f["detail"][:300]))
+                    continue
+                failing.add((group, clause))
+                n_failed += 1
+                name = "{}/bounded/{}/{}".format(prop, group, clause) + ("" if i == 0 else "#{}".format(i + 1))
+                det = dict(history=f["spec"].get("ops", f["spec"].get("idx_ops")), init=f["spec"].get("init", f["spec"].get("curve")),
+                           observed=f["detail"], expected="clause `{}` holds".format(clause), spec=f["spec"],
+                           all_failing_groups=sorted(g for g, _ in by_clause[clause]))
+                chk.add(Ob(name, FAILED, kind="bounded", backend="explorer", detail=det,
+                           replay={"code": code, "confirmed": True, "raises_is_violation": True}))
+        for (group, clause), n in sorted(self.checked.items()):
+            if clause_filter is not None and not clause_filter(clause):
+                continue
+            if (group, clause) in failing:
+                continue
+            chk.add(Ob("{}/bounded/{}/{}".format(prop, group, clause), DISCHARGED, kind="bounded",
+                       backend="explorer", detail=dict(evaluations=n)))
+        return n_failed
+
+
+# =====================================================================================================
+# 5. breadth-first exploration
+# =====================================================================================================
+def _scale(init, depth):
+    return init.den * 2 ** (depth + 2)
+
+
+def enc_rect(r, S):
+    out = []
+    for c in r:
+        q = c * S
+        assert q.denominator == 1
+        out.append(q.numerator)
+    return tuple(out)
+
+
+def dec_rect(ir, S):
+    return tuple(F(i, S) for i in ir)
+
+
+def enc_hist(ops, S):
+    return tuple(enc_rect(o[1], S) + (o[2],) for o in ops)
+
+
+def dec_hist(h, S):
+    return [("axis", dec_rect(o[:4], S), o[4]) for o in h]
+
+
+def _real_replay(init, ops):
+    mesh = init.build()
+    for op in ops:
+        real_apply(mesh, op)
+    return mesh
+
+
+def _expand_chunk(task):
+    """Worker: expand every state of the chunk by every refine_axis(leaf, ax) (+ terminal compound ops)."""
+    fam, S, hists, compound, own = task
+    init = FAMILIES[fam]
+    new, fails, evals = [], [], 0
+    for h in hists:
+        ops = dec_hist(h, S)
+        view0 = init.view()
+        for op in ops:
+            view0 = closure_refine(view0, op[1], op[2])
+        cand = [("axis", r, ax) for r in sorted(view0.leaves) for ax in (0, 1)]
+        if compound:
+            cand += [("refine", r) for r in sorted(view0.leaves)] + [("uniform",), ("uniform_space",)]
+        for op in cand:
+            run = Run.__new__(Run)
+            run.init, run.view, run.history, run.broken = init, view0, list(ops), False
+            with contextlib.redirect_stdout(io.StringIO()):
+                run.mesh = _real_replay(init, ops)
+            bad = run.apply(op, check=True)
+            evals += 1
+            if bad:
+                spec = dict(kind="history", init=init.spec(), ops=history_json(run.history))
+                seen_c = set()
+                for clause, detail in bad:
+                    if clause not in seen_c:
+                        seen_c.add(clause)
+                        fails.append(_failure(fam, clause, spec, detail, len(run.history)))
+            # a state is not expanded further if the operation raised or a clause of the property under check
+            # failed; violations of clauses owned by another property do not stop the exploration
+            if op[0] == "axis" and not any(_stops(c, own) for c, _ in bad):
+                key = repr(sorted(enc_rect(r, S) for r in run.view.leaves))
+                new.append((key, h + (enc_rect(op[1], S) + (op[2],),), len(run.view.leaves)))
+    # keep the report small: at most MAX_PER_CLAUSE shortest per clause from this chunk
+    fd = Findings()
+    fd.merge_fails(fails)
+    return fam, new, [f for lst in fd.fails.values() for f in lst], evals
+
+
+def _stops(clause, own):
+    return own is None or clause in own or clause.endswith("no-raise")
+
+
+def explore_bfs(family_depths, depth=None, pool=None, compound=True, progress=None, own=None):
+    """Breadth-first over ALL sequences of refine_axis(leaf, ax) up to the given depth per family, states
+    de-duplicated by leaf set.  Returns dict family -> dict(evals, states, nontrivial, fails, reached)
+    where reached = list of (encoded history, n_leaves, scale) of every distinct state.
+    Call as explore_bfs({family: depth, ...}) or explore_bfs(family_name, depth).  `own` = clauses whose
+    violation stops the expansion of a state (None: any violation stops it)."""
+    if isinstance(family_depths, str):
+        family_depths = {family_depths: depth}
+    res = {}
+    frontier = {}
+    scale = {}
+    for fam, d in family_depths.items():
+        init = FAMILIES[fam]
+        scale[fam] = _scale(init, d)
+        key0 = repr(sorted(enc_rect(r, scale[fam]) for r in init.view().leaves))
+        res[fam] = dict(evals=0, seen={key0}, fails=[], reached=[((), len(init.view()), scale[fam])], depth=d)
+        frontier[fam] = [()]
+    level = 0
+    while any(frontier.values()):
+        tasks = []
+        for fam, fr in frontier.items():
+            if not fr or level >= family_depths[fam]:
+                frontier[fam] = []
+                continue
+            n = len(fr)
+            chunk = max(1, min(200, n // (NPROC * 4) + 1))
+            for i in range(0, n, chunk):
+                tasks.append((fam, scale[fam], fr[i:i + chunk], compound, own))
+        if not tasks:
+            break
+        it = pool.imap_unordered(_expand_chunk, tasks) if pool is not None else map(_expand_chunk, tasks)
+        nxt = {fam: [] for fam in frontier}
+        for fam, new, fails, evals in it:
+            r = res[fam]
+            r["evals"] += evals
+            r["fails"].extend(fails)
+            for key, h, n in new:
+                if key not in r["seen"]:
+                    r["seen"].add(key)
+                    nxt[fam].append(h)
+                    r["reached"].append((h, n, scale[fam]))
+        frontier = nxt
+        level += 1
+        if progress:
+            progress("bfs level {} done: {}".format(level, {f: len(v) for f, v in frontier.items() if v}))
+    for fam, r in res.items():
+        r["states"] = len(r["seen"])
+        r["nontrivial"] = sum(1 for _, n, _ in r["reached"] if n > 1)
+        del r["seen"]
+    return res
+
+
+# =====================================================================================================
+# 6. C06: Doerfler marking
+# =====================================================================================================
+THETAS = (0.05, 0.3, 0.5, 0.7, 0.95)
+TIE_CAP = 64
+
+
+def marking_candidates(entries, theta, cap=TIE_CAP):
+    """Independent statement of the marking rule.  `entries` = list of (value, tag).  Returns the list of all
+    admissible marked tag-sets: shortest non-empty prefix of a descending ordering whose sum reaches
+    theta^2 * total, for every tie-break among equal values (None if more than `cap` tie-breaks).
+    Sums are exact rationals of the float inputs; a relative band of 1e-12 around the threshold accepts
+    both outcomes where float accumulation could legitimately differ from exact arithmetic."""
+    vals = sorted((F(float(v)) for v, _ in entries), reverse=True)
+    total = sum(vals, F(0))
+    thr = F(float(theta)) ** 2 * total
+    eps = F(1, 10 ** 12)
+    pref, ks = F(0), []
+    for k in range(1, len(vals) + 1):
+        prev, pref = pref, pref + vals[k - 1]
+        if pref >= thr * (1 - eps) and (k == 1 or prev < thr * (1 + eps)):
+            ks.append(k)
+    out = []
+    for k in ks:
+        vk = vals[k - 1]
+        greater = [tag for v, tag in entries if F(float(v)) > vk]
+        equal = [tag for v, tag in entries if F(float(v)) == vk]
+        need = k - len(greater)
+        if math.comb(len(equal), need) + len(out) > cap:
+            return None
+        for combo in itertools.combinations(equal, need):
+            out.append(frozenset(greater) | frozenset(combo))
+    return out
+
+
+def dorfler_reference(view0, variant, marked, order):
+    """Reference result: closure of the marked time bisections, then closure of the marked space bisections
+    applied to the time halves.  `marked` = set of (rect, ax); for the isotropic variant ax is always 0 and
+    every marked element is also refined in space.  `order` permutes the processing order (the result must
+    not depend on it)."""
+    w = view0
+    mt = order([r for r, ax in marked if ax == 0])
+    for r in mt:
+        w = ref.ensure_bisected(w, r, 0)
+    if variant == "isotropic":
+        targets = [h for r in mt for h in halves(r, 0)]
+    else:
+        targets = []
+        for r in order([r for r, ax in marked if ax == 1]):
+            targets.extend([r] if r in w.leaves else list(halves(r, 0)))
+    for r in order(targets):
+        w = ref.ensure_bisected(w, r, 1)
+    return w
+
+
+def _orders(levels, rng):
+    def asc(lst):
+        return sorted(lst, key=lambda r: (sum(levels.get(r, (9, 9))), r))
+
+    def desc(lst):
+        return list(reversed(asc(lst)))
+
+    def shuffled(lst):
+        lst = sorted(lst)
+        rng.shuffle(lst)
+        return lst
+    return asc, desc, shuffled
+
+
+def dorfler_case(spec, pre=None):
+    """One Doerfler call on the mesh reached by spec['ops'].  spec['eta'] is aligned with the SORTED leaf
+    rectangles (so it does not depend on internal orderings).  Returns list of (clause, detail)."""
+    init = Init.from_spec(spec["init"])
+    variant, theta = spec["variant"], float(spec["theta"])
+    ops = [op_parse(o) for o in spec["ops"]]
+    if pre is None:
+        view0 = init.view()
+        for op in ops:
+            view0 = reference_apply_fast(view0, op)
+    else:
+        view0 = pre
+    with contextlib.redirect_stdout(io.StringIO()):
+        mesh = _real_replay(init, ops)
+    rects = sorted(view0.leaves)
+    if sorted(elem_rect(e) for e in mesh.leaf_elements) != rects:
+        return [("precondition", "real leaves differ from the reference before the call")]
+    eta = _dorfler_eta_for(mesh, variant, spec["eta"])
+    entries = _dorfler_entries(rects, variant, spec["eta"])
+    cands = marking_candidates(entries, theta)
+    if cands is None:
+        return [("skipped-too-many-ties", "")]
+    bad = []
+    try:
+        with contextlib.redirect_stdout(io.StringIO()):
+            if variant == "isotropic":
+                mesh.dorfler_refine_isotropic(eta, theta)
+            else:
+                mesh.dorfler_refine_anisotropic(eta, theta)
+    except (Exception, RecursionError) as e:
+        tn, fn, text, ln = describe_exception(e)
+        return [("no-raise", "dorfler_refine_{} raised {} in {} at `{}` (mesh.py:{})".format(variant, tn, fn, text, ln))]
+    new = real_leaves(mesh)
+    if new is None:
+        new = {elem_rect(e): tuple(e.levels) for e in mesh.leaf_elements}
+        bad.append(("wf/tiling", "two leaves share a rectangle"))
+    rng = random.Random(1)
+    asc, desc, shuffled = _orders(view0.leaves, rng)
+    match, first_exp = None, None
+    for m in cands:
+        exp = dorfler_reference(view0, variant, m, asc)
+        if first_exp is None:
+            first_exp = (m, exp)
+        if exp.leaves == new:
+            match = (m, exp)
+            break
+    if match is None:
+        m, exp = first_exp
+        bad.append(("result-is-closure", "marked (any of {} tie-breaks, e.g. {}): real-only {} reference-only {}".format(
+            len(cands), sorted((rect_str(r), ax) for r, ax in m),
+            sorted(rect_str(r) for r in set(new) - set(exp.leaves))[:4],
+            sorted(rect_str(r) for r in set(exp.leaves) - set(new))[:4])))
+    # (d) every marked element is refined in the marked direction(s)
+    nv = _geo_view(init, new)
+
+    def refined_ok(m):
+        for r, ax in m:
+            axes = (0, 1) if variant == "isotropic" else (ax,)
+            for a in axes:
+                if r in new or ref.crossing_leaves(nv, r, a):
+                    return (r, a)
+        return None
+    miss = refined_ok(match[0]) if match else None
+    if match is None:
+        misses = [refined_ok(m) for m in cands]
+        miss = misses[0] if all(x is not None for x in misses) else None
+    if miss is not None:
+        bad.append(("marked-refined", "marked {} is not bisected in axis {}".format(rect_str(miss[0]), miss[1])))
+    # order independence of the reference itself
+    if match is not None:
+        for od in (desc, shuffled):
+            alt = dorfler_reference(view0, variant, match[0], od)
+            if alt.leaves != match[1].leaves:
+                bad.append(("reference-order-independent", "reference closure depends on the processing order"))
+                break
+    for clause, detail in well_formed(mesh, init, match[1] if match else None):
+        bad.append(("wf/" + clause, detail))
+    return bad
+
+
+def eta_designs(n, variant, rng, perm_limit):
+    """Indicator vectors (aligned with sorted leaf rectangles) inducing all / many rank orders, plus ties,
+    zeros and a dominant entry.  Integer-valued floats, so all sums are exact."""
+    m = n if variant == "isotropic" else 2 * n
+    base = list(range(1, m + 1))
+    vecs = []
+    if math.factorial(m) <= perm_limit:
+        vecs.extend(itertools.permutations(base))
+    else:
+        seen = set()
+        while len(seen) < perm_limit:
+            p = base[:]
+            rng.shuffle(p)
+            seen.add(tuple(p))
+        vecs.extend(sorted(seen))
+    special = [[1] * m if math.comb(m, m // 2) <= TIE_CAP else [1 + (i % 3) for i in range(m)],   # ties
+               [0] * m,                                                                           # all zero
+               [0] * (m - 1) + [5],                                                               # one nonzero
+               [1000 if i == rng.randrange(m) else 1 + i for i in range(m)]]                       # dominant
+    d = [float(2 ** i) for i in range(m)]
+    rng.shuffle(d)
+    special.append(d)                                                                             # geometric
+    z = [0 if i % 2 else i + 1 for i in range(m)]
+    rng.shuffle(z)
+    special.append(z)                                                                             # half zeros
+    t = [3, 3] + [1 + i for i in range(m - 2)] if m >= 2 else [3]
+    rng.shuffle(t)
+    special.append(t)                                                                             # a tied pair
+    if variant == "anisotropic":
+        special.append([v for i in range(n) for v in (i + 1, 0)])                                 # time only
+        special.append([v for i in range(n) for v in (0, i + 1)])                                 # space only
+        j = rng.randrange(n)
+        special.append([v for i in range(n) for v in ((100, 90) if i == j else (1 + i, 2 + i))])  # both axes
+    vecs.extend(tuple(s) for s in special)
+    if variant == "anisotropic":
+        vecs = [tuple((v[2 * i], v[2 * i + 1]) for i in range(n)) for v in vecs]
+    return vecs
+
+
+def _dorfler_chunk(task):
+    """Worker: all Doerfler cases of a list of states."""
+    fam, S, hists, perm_limit, seed = task
+    init = FAMILIES[fam]
+    fails, evals, skipped, marked_sets = [], 0, 0, set()
+    for h in hists:
+        ops = dec_hist(h, S)
+        view0 = init.view()
+        for op in ops:
+            view0 = closure_refine(view0, op[1], op[2])
+        n = len(view0.leaves)
+        rng = random.Random("{}-{}-{}".format(seed, fam, h))
+        rects = sorted(view0.leaves)
+        for variant in ("isotropic", "anisotropic"):
+            done = set()
+            for eta in eta_designs(n, variant, rng, perm_limit):
+                for theta in THETAS:
+                    # de-duplicate executions that only differ in the order of the unmarked tail
+                    if variant == "isotropic":
+                        ent = [(eta[i], i) for i in range(n)]
+                    else:
+                        ent = [(eta[i][ax], (i, ax)) for i in range(n) for ax in (0, 1)]
+                    ent.sort(key=lambda e: -e[0])
+                    tot, acc, k = sum(e[0] for e in ent) * theta ** 2, 0.0, 0
+                    for k, e in enumerate(ent, 1):
+                        acc += e[0]
+                        if acc >= tot:
+                            break
+                    # marked prefix (ordered, with values) + every later entry tied with the last marked value
+                    sig = tuple(ent[:k]) + tuple(e for e in ent[k:] if e[0] == ent[k - 1][0])
+                    if sig in done:
+                        continue
+                    done.add(sig)
+                    spec = dict(kind="dorfler", init=init.spec(), ops=history_json(ops), variant=variant,
+                                eta=[list(e) if isinstance(e, tuple) else e for e in eta], theta=theta)
+                    bad = dorfler_case(spec, pre=view0)
+                    if bad and bad[0][0] == "skipped-too-many-ties":
+                        skipped += 1
+                        continue
+                    evals += 1
+                    for clause, detail in bad:
+                        fails.append(_failure(variant, clause, spec, detail, len(ops) + 1))
+    fd = Findings()
+    fd.merge_fails(fails)
+    return [f for lst in fd.fails.values() for f in lst], evals, skipped
+
+
+DORFLER_CLAUSES = ("no-raise", "result-is-closure", "marked-refined", "reference-order-independent", "wf/tiling",
+                   "wf/levels-dyadic", "wf/leaf-bookkeeping", "wf/glob-idx-unique", "wf/vertex-unique",
+                   "wf/edge-elem", "wf/one-irregular", "wf/nbrs-exact", "wf/nbrs-no-raise", "wf/nbrs-symmetric",
+                   "wf/nbrs-boundary", "wf/nbr-edge-symmetric", "wf/minimal")
+
+
+# =====================================================================================================
+# 7. C19: grading
+# =====================================================================================================
+class _Abort(BaseException):
+    pass
+
+
+GRADING_CLAUSES = ("refine_grading/assert-not-children-space-loop", "refine_grading/no-raise", "window",
+                   "only-refines", "well-formed", "history/no-raise")
+
+
+def guarded_grading(mesh, sigma, K, max_leaves, max_seconds):
+    """mesh.refine_grading(sigma, K) with a leaf/time cap; returns 'ok' | 'not_finished'; exceptions of the
+    repository code propagate.  The cap is enforced in instance-level wrappers of refine_time/refine_space
+    (refine_grading calls them through self), plus an interval timer as a back stop."""
+    t_end = time.time() + max_seconds
+
+    def guard():
+        if len(mesh.leaf_elements) > max_leaves or time.time() > t_end:
+            raise _Abort()
+    cls = type(mesh)
+
+    def rt(elem):
+        guard()
+        return cls.refine_time(mesh, elem)
+
+    def rx(elem):
+        guard()
+        return cls.refine_space(mesh, elem)
+    mesh.refine_time, mesh.refine_space = rt, rx
+    use_timer = hasattr(signal, "setitimer")
+    old = None
+    if use_timer:
+        try:
+            def _alarm(signum, frame):
+                raise _Abort()
+            old = signal.signal(signal.SIGALRM, _alarm)
+            signal.setitimer(signal.ITIMER_REAL, max_seconds + 5)
+        except ValueError:          # not in the main thread
+            use_timer = False
+    try:
+        with contextlib.redirect_stdout(io.StringIO()):
+            mesh.refine_grading(sigma=sigma, K=K)
+        return "ok"
+    except _Abort:
+        return "not_finished"
+    finally:
+        if use_timer:
+            signal.setitimer(signal.ITIMER_REAL, 0)
+            signal.signal(signal.SIGALRM, old)
+        del mesh.refine_time, mesh.refine_space
+
+
+def build_from_spec(spec):
+    """Real mesh (and Init or None) from a grading spec: exact tensor mesh + rectangle ops, or a curve of
+    src.parametrization + index ops [[leaf index in leaf_elements order, ax], ...] (float coordinates)."""
+    with contextlib.redirect_stdout(io.StringIO()):
+        if "curve" in spec:
+            import src.parametrization as P
+            mesh = RM.MeshParametrized(getattr(P, spec["curve"])())
+            for i, ax in spec["idx_ops"]:
+                mesh.refine_axis(list(mesh.leaf_elements)[i], ax)
+            return mesh, None
+        init = Init.from_spec(spec["init"])
+        return _real_replay(init, [op_parse(o) for o in spec["ops"]]), init
+
+
+def grading_case(spec):
+    """History, then refine_grading(sigma, K).  Returns dict(status, bad=[(clause, detail)], n0, n1)."""
+    sigma, K = spec["sigma"], spec.get("K", 4)
+    try:
+        mesh, init = build_from_spec(spec)
+    except (Exception, RecursionError) as e:
+        tn, fn, text, ln = describe_exception(e)
+        return dict(status="failed", n0=None, n1=None, bad=[("history/no-raise", "building the history raised {} in {} at `{}` (mesh.py:{})".format(
+            tn, fn, text, ln))])
+    old = list(mesh.leaf_elements)
+    old_set = set(old)
+    bad = []
+    try:
+        status = guarded_grading(mesh, sigma, K, spec.get("max_leaves", 20000), spec.get("max_seconds", 20))
+    except (Exception, RecursionError) as e:
+        tn, fn, text, ln = describe_exception(e)
+        if tn == "AssertionError" and fn == "refine_grading" and text == "assert not elem.children":
+            clause = "refine_grading/assert-not-children-space-loop"
+        else:
+            clause = "refine_grading/no-raise"
+        return dict(status="failed", n0=len(old), n1=None, bad=[(clause, "refine_grading(sigma={}, K={}) raised {} in {} at `{}` (mesh.py:{})".format(
+            sigma, K, tn, fn, text, ln))])
+    if status == "not_finished":
+        return dict(status=status, bad=[], n0=len(old), n1=len(mesh.leaf_elements))
+    for e in mesh.leaf_elements:
+        r = elem_rect(e)
+        ht, hx = r[1] - r[0], r[3] - r[2]
+        if not (ht / K < hx ** sigma < K * ht):
+            bad.append(("window", "leaf {} has h_t={} h_x={} outside the window (sigma={}, K={})".format(e, ht, hx, sigma, K)))
+            break
+    for e in mesh.leaf_elements:
+        a, steps = e, 0
+        while a is not None and a not in old_set and steps < 10000:
+            a, steps = a.parent, steps + 1
+        if a is None or a not in old_set:
+            bad.append(("only-refines", "leaf {} has no ancestor-or-self among the old leaves".format(e)))
+            break
+    leaf_set = set(mesh.leaf_elements)
+    for o in old:
+        if not o.children and o not in leaf_set:
+            bad.append(("only-refines", "old leaf {} vanished".format(o)))
+            break
+    if len(mesh.leaf_elements) <= spec.get("wf_limit", 3000):
+        wf = well_formed(mesh, init, None) if init is not None else well_formed(mesh, None, None, exact=False)
+        if wf:
+            bad.append(("well-formed", "; ".join("{}: {}".format(c, d) for c, d in wf[:3])))
+    return dict(status="ok", bad=bad, n0=len(old), n1=len(mesh.leaf_elements))
+
+
+# =====================================================================================================
+# 8. seeded random histories
+# =====================================================================================================
+BIASES = (0.2, 0.5, 0.8)        # probability that a random bisection is a TIME bisection
+ELEMENT_CAP = 400
+CURVES = ("UnitSquare", "LShape", "Circle")
+
+
+def _random_wf_task(task):
+    """One random history on an exact mesh, every operation checked with the full `well_formed` + `minimal`
+    (the only economy on big meshes: the fixed-point minimality oracle scans locally above
+    _mesh_ref.FULL_SCAN_LIMIT leaves).  mode 'dorfler' interleaves marking steps."""
+    mode, i, seed, steps, cap, own = task
+    names = list(FAMILIES)
+    init = FAMILIES[names[i % len(names)]]
+    bias = BIASES[(i // len(names)) % 3]
+    rng = random.Random("{}/{}/{}".format(seed, mode, i))
+    group = "random" if mode == "wf" else "sequences"
+    run = Run(init)
+    fails, evals, keys, rebuilds = [], 0, set(), 0
+    allow_uspace = True
+    for _ in range(steps):
+        n = len(run.view.leaves)
+        if n > cap:
+            break
+        rects = sorted(run.view.leaves)
+        u = rng.random()
+        r = rects[rng.randrange(n)]
+        ax = 0 if rng.random() < bias else 1
+        if mode == "dorfler" and u < 0.5 and n <= 150:
+            variant = "isotropic" if u < 0.25 else "anisotropic"
+            eta = [rng.random() if variant == "isotropic" else (rng.random(), rng.random()) for _ in range(n)]
+            if rng.random() < 0.15:      # some zeros (never all: ties among zeros are covered by the state cases)
+                eta = [(0.0 if variant == "isotropic" else (0.0, e[1])) if (rng.random() < 0.4 and j > 0) else e
+                       for j, e in enumerate(eta)]
+            op = ("dorfler", variant, tuple(eta), rng.choice(THETAS))
+            spec = dict(kind="dorfler", init=init.spec(), ops=history_json(run.history), variant=variant,
+                        eta=[list(e) if isinstance(e, tuple) else e for e in eta], theta=op[3])
+            bad = dorfler_case(spec, pre=run.view)
+            evals += 1
+            for clause, detail in bad:
+                fails.append(_failure("sequences-" + variant, clause, spec, detail, len(run.history) + 1))
+            if bad:
+                break
+            run.apply(op, check=False)
+            continue
+        if u < 0.80 or mode == "dorfler":
+            op = ("axis", r, ax)
+        elif u < 0.92:
+            op = ("refine", r)
+        elif u < 0.96 and 4 * n <= cap:
+            op = ("uniform",)
+        elif u >= 0.96 and 2 * n <= cap and allow_uspace:
+            op = ("uniform_space",)
+        else:
+            op = ("axis", r, ax)
+        bad = run.apply(op, check=(mode == "wf"))
+        evals += 1
+        if bad:
+            spec = dict(kind="history", init=init.spec(), ops=history_json(run.history))
+            seen_c = set()
+            for clause, detail in bad:
+                if clause not in seen_c:
+                    seen_c.add(clause)
+                    fails.append(_failure(group, clause, spec, detail, len(run.history)))
+            if not any(_stops(c, own) for c, _ in bad):
+                run.broken = False      # only clauses of another property failed: go on
+                keys.add(hash(frozenset(run.view.leaves)))
+                continue
+            if all(c.endswith("no-raise") for c, _ in bad) and rebuilds < 3:
+                # the operation raised half way: rebuild the mesh without it and go on
+                rebuilds += 1
+                if op[0] == "uniform_space":
+                    allow_uspace = rebuilds < 2
+                hist = run.history[:-1]
+                run = Run(init)
+                run.replay(hist, check=False)
+                if run.broken:
+                    break
+                continue
+            break
+        keys.add(hash(frozenset(run.view.leaves)))
+    sample = dict(init=init.name, bias=bias, history=history_short(run.history[:4]) + (" ..." if len(run.history) > 4 else ""),
+                  steps=len(run.history), leaves=len(run.view.leaves))
+    fd = Findings()
+    fd.merge_fails(fails)
+    return [f for lst in fd.fails.values() for f in lst], evals, keys, sample
+
+
+def random_histories(n, steps, seed, pool=None, mode="wf", cap=ELEMENT_CAP, own=None):
+    """n seeded random histories (time bias cycling through 0.2/0.5/0.8, families cycling), ops drawn from
+    {refine_axis 80%, refine 12%, uniform_refine 4%, uniform_refine_space 4%}; every op checked."""
+    tasks = [(mode, i, seed, steps, cap, own) for i in range(n)]
+    it = pool.imap_unordered(_random_wf_task, tasks) if pool is not None else map(_random_wf_task, tasks)
+    fails, evals, keys, samples = [], 0, set(), []
+    for f, e, k, s in it:
+        fails.extend(f)
+        evals += e
+        keys |= k
+        samples.append(s)
+    samples.sort(key=lambda s: (s["init"], s["bias"]))
+    return dict(fails=fails, evals=evals, distinct=len(keys), samples=samples[:3])
+
+
+def _grading_task(task):
+    """Worker: grading cases.  kind 'states': explorer states x sigma; kind 'random': one random history on an
+    exact mesh or on a MeshParametrized curve (float coordinates), then refine_grading for every sigma."""
+    kind = task[0]
+    out = dict(fails=[], evals=0, not_finished=0, keys=set(), samples=[])
+
+    def one(group, spec, length):
+        res = grading_case(spec)
+        out["evals"] += 1
+        if res["status"] == "not_finished":
+            out["not_finished"] += 1
+        for clause, detail in res["bad"]:
+            out["fails"].append(_failure(group, clause, spec, detail, length))
+        return res
+
+    if kind == "states":
+        _, fam, S, hists, caps = task
+        init = FAMILIES[fam]
+        for h in hists:
+            ops = dec_hist(h, S)
+            for sigma in (1, 1.5, 2):
+                spec = dict(kind="grading", init=init.spec(), ops=history_json(ops), sigma=sigma, K=4, **caps)
+                one(fam, spec, len(ops))
+        return _shrink(out)
+    _, i, seed, steps, caps = task
+    rng = random.Random("{}/grading/{}".format(seed, i))
+    bias = rng.choice(BIASES)
+    nsteps = rng.choice((10, 30, steps))
+    if i % 3 != 0:
+        curve = CURVES[(i // 3) % 3]
+        spec0 = dict(kind="grading", curve=curve, idx_ops=[])
+        mesh, _ = build_from_spec(spec0)
+        for _ in range(nsteps):
+            n = len(mesh.leaf_elements)
+            if n > ELEMENT_CAP:
+                break
+            j, ax = rng.randrange(n), (0 if rng.random() < bias else 1)
+            spec0["idx_ops"].append([j, ax])
+            try:
+                mesh.refine_axis(list(mesh.leaf_elements)[j], ax)
+            except (Exception, RecursionError):
+                break               # grading_case re-raises it and reports clause history/no-raise
+        group, length = "curve-" + curve, len(spec0["idx_ops"])
+        out["keys"].add(hash(frozenset(elem_rect(e) for e in mesh.leaf_elements)))
+        out["samples"].append(dict(curve=curve, bias=bias, steps=length, leaves=len(mesh.leaf_elements)))
+    else:
+        names = list(FAMILIES)
+        init = FAMILIES[names[(i // 3) % len(names)]]
+        run = Run(init)
+        for _ in range(nsteps):
+            rects = sorted(run.view.leaves)
+            if len(rects) > ELEMENT_CAP:
+                break
+            op = ("axis", rects[rng.randrange(len(rects))], 0 if rng.random() < bias else 1)
+            if run.apply(op, check=False):
+                break
+        spec0 = dict(kind="grading", init=init.spec(), ops=history_json(run.history))
+        group, length = "random", len(run.history)
+        out["keys"].add(hash(frozenset(run.view.leaves)))
+        out["samples"].append(dict(init=init.name, bias=bias, steps=length, leaves=len(run.view.leaves)))
+    for sigma in (1, 1.5, 2):
+        spec = dict(spec0, sigma=sigma, K=4, **caps)
+        one(group, spec, length)
+    return _shrink(out)
+
+
+def _shrink(out):
+    fd = Findings()
+    fd.merge_fails(out["fails"])
+    out["fails"] = [f for lst in fd.fails.values() for f in lst]
+    return out
+
+
+# =====================================================================================================
+# 9. the interface used by the check drivers
+# =====================================================================================================
+def _chunks(lst, n):
+    return [lst[i:i + n] for i in range(0, len(lst), n)]
+
+
+def _depth_text(depths):
+    by = {}
+    for f, d in depths.items():
+        by.setdefault(d, []).append(f)
+    return "; ".join("depth {} on {}".format(d, ",".join(fs)) for d, fs in sorted(by.items()))
+
+
+def _sample_histories(res, k=3):
+    out = []
+    for fam, r in res.items():
+        if len(out) >= k:
+            break
+        h, n, S = r["reached"][-1]
+        out.append(dict(init=fam, history=history_short(dec_hist(h, S)), leaves=n))
+    return out
+
+
+def _run_structure(chk, prop, tier, seed, pool, log):
+    """C02 / C10: exhaustive BFS + random histories, class invariant + minimality after every operation."""
+    own = C02_CLAUSES if prop == "C02" else C10_CLAUSES
+    compound_nr = tuple(REAL_NAME[k] + "/no-raise" for k in ("refine", "uniform", "uniform_space"))
+
+    def mine(clause):
+        return clause in own or (prop == "C02" and clause in compound_nr)
+    depths = bfs_depths(tier)
+    t0 = time.time()
+    res = explore_bfs(depths, pool=pool, compound=True, progress=log, own=own)
+    fd = Findings()
+    for fam, r in res.items():
+        fd.merge_fails(r["fails"])
+        fd.mark_checked(fam, own + (compound_nr if prop == "C02" else ()), r["evals"])
+        chk.add_bounded("{}/bounded/bfs/{}".format(prop, fam), r["evals"], r["nontrivial"],
+                        "all sequences of refine_axis(leaf, ax) up to depth {} from initial mesh {} (time {} space {}{}); "
+                        "plus refine(leaf), uniform_refine, uniform_refine_space as terminal operations on every "
+                        "state".format(r["depth"], fam, [str(t) for t in FAMILIES[fam].time],
+                                       [str(x) for x in FAMILIES[fam].space], " glued" if FAMILIES[fam].glued else ""),
+                        "breadth-first, every leaf x both axes, states de-duplicated by exact leaf set; one evaluation = "
+                        "one operation executed on the real mesh + well_formed + comparison with the reference closure",
+                        _sample_histories({fam: r}, 1))
+    log("bfs: {} evaluations, {} states in {:.1f}s".format(sum(r["evals"] for r in res.values()),
+                                                          sum(r["states"] for r in res.values()), time.time() - t0))
+    n, steps = (66, 80) if tier == "quick" else (330, 200)
+    t0 = time.time()
+    rr = random_histories(n, steps, seed, pool, own=own)
+    fd.merge_fails(rr["fails"])
+    fd.mark_checked("random", own + (compound_nr if prop == "C02" else ()), rr["evals"])
+    chk.add_bounded("{}/bounded/random".format(prop), rr["evals"], rr["distinct"],
+                    "{} random histories of up to {} operations, at most {} leaves, seed {}".format(n, steps, ELEMENT_CAP, seed),
+                    "ops drawn from refine_axis 80% / refine 12% / uniform_refine 4% / uniform_refine_space 4%, time bias "
+                    "cycling 0.2/0.5/0.8, initial meshes cycling through all families; full invariant after every op "
+                    "(above {} leaves the least-fixed-point minimality oracle scans only the neighbourhood of the leaves "
+                    "it created)".format(ref.FULL_SCAN_LIMIT),
+                    rr["samples"])
+    log("random: {} evaluations in {:.1f}s".format(rr["evals"], time.time() - t0))
+    return fd.emit(chk, prop, mine)
+
+
+def _collect_states(tier, pool, max_leaves, depth_quick, depth_thorough, log):
+    depths = {f: (depth_quick if tier == "quick" else depth_thorough) for f in FAMILIES}
+    res = explore_bfs(depths, pool=pool, compound=False, progress=None)
+    states = {f: [(h, n) for h, n, _ in r["reached"] if n <= max_leaves] for f, r in res.items()}
+    scales = {f: r["reached"][0][2] for f, r in res.items()}
+    log("collected {} states with <= {} leaves".format(sum(map(len, states.values())), max_leaves))
+    return states, scales, depths
+
+
+def _run_dorfler(chk, prop, tier, seed, pool, log):
+    states, scales, depths = _collect_states(tier, pool, 6, 3, 4, log)
+    rng = random.Random("{}/C06".format(seed))
+    perm_limit = 24 if tier == "quick" else 120
+    per_family = 40 if tier == "quick" else 400
+    tasks, n_states = [], 0
+    for fam, lst in states.items():
+        small = [s for s in lst if s[1] <= 3]
+        rest = [s for s in lst if s[1] > 3]
+        rng.shuffle(rest)
+        chosen = small + rest[:max(0, per_family - len(small))]
+        n_states += len(chosen)
+        for ch in _chunks([h for h, _ in chosen], 2 if tier == "quick" else 4):
+            tasks.append((fam, scales[fam], ch, perm_limit, seed))
+    fd = Findings()
+    evals = skipped = 0
+    t0 = time.time()
+    for fails, e, sk in (pool.imap_unordered(_dorfler_chunk, tasks) if pool else map(_dorfler_chunk, tasks)):
+        fd.merge_fails(fails)
+        evals += e
+        skipped += sk
+    for variant in ("isotropic", "anisotropic"):
+        fd.mark_checked(variant, DORFLER_CLAUSES, evals // 2)
+    chk.add_bounded("C06/bounded/states", evals, n_states,
+                    "{} explorer states with <= 6 leaves (all with <= 3 leaves, seeded sample of the others; BFS {}) x both "
+                    "variants x theta in {} x indicator designs".format(n_states, _depth_text(depths), list(THETAS)),
+                    "indicator vectors = all permutations of 1..m (m = n leaves isotropic, 2n anisotropic) when m! <= {0}, "
+                    "else {0} seeded permutations; plus all-equal, all-zero, single non-zero, one dominant entry, geometric, "
+                    "half zeros, a tied pair, time-only/space-only/both-axes-dominant (anisotropic); executions that only "
+                    "differ in the order of the unmarked tail are de-duplicated; {1} tie cases with more than {2} "
+                    "admissible tie-breaks skipped".format(perm_limit, skipped, TIE_CAP),
+                    [dict(init=f, history=history_short(dec_hist(l[-1][0], scales[f])), leaves=l[-1][1])
+                     for f, l in list(states.items())[:2] if l])
+    log("dorfler states: {} evaluations in {:.1f}s".format(evals, time.time() - t0))
+    n, steps = (32, 25) if tier == "quick" else (320, 40)
+    t0 = time.time()
+    rr = random_histories(n, steps, seed, pool, mode="dorfler")
+    fd.merge_fails(rr["fails"])
+    for variant in ("isotropic", "anisotropic"):
+        fd.mark_checked("sequences-" + variant, DORFLER_CLAUSES, rr["evals"] // 2)
+    chk.add_bounded("C06/bounded/sequences", rr["evals"], rr["distinct"],
+                    "{} random sequences of up to {} steps (50% marking steps with random float indicators, 15% of them "
+                    "with zeros; 50% refine_axis), at most {} leaves, seed {}".format(n, steps, ELEMENT_CAP, seed),
+                    "every marking step is checked against the reference (marked prefix recomputed exactly, closure of "
+                    "time marks then space marks on the time halves, order independence, well_formed)", rr["samples"])
+    log("dorfler sequences: {} evaluations in {:.1f}s".format(rr["evals"], time.time() - t0))
+    return fd.emit(chk, prop)
+
+
+def _run_grading(chk, prop, tier, seed, pool, log):
+    states, scales, depths = _collect_states(tier, pool, 10 ** 9, 3, 4, log)
+    caps = dict(max_leaves=20000, max_seconds=4 if tier == "quick" else 20)
+    tasks = []
+    for fam, lst in states.items():
+        for ch in _chunks([h for h, _ in lst], 8):
+            tasks.append(("states", fam, scales[fam], ch, caps))
+    n_states = sum(map(len, states.values()))
+    n_rand, steps = (480, 60) if tier == "quick" else (1800, 200)
+    # long histories first (they dominate the wall clock)
+    rtasks = [("random", i, seed, steps, caps) for i in range(n_rand)]
+    fd = Findings()
+    tot = dict(states=dict(evals=0, nf=0), random=dict(evals=0, nf=0))
+    keys, samples = set(), []
+    t0 = time.time()
+    allt = rtasks + tasks
+    for out in (pool.imap_unordered(_grading_task, allt) if pool else map(_grading_task, allt)):
+        fd.merge_fails(out["fails"])
+        which = "random" if out["samples"] else "states"
+        tot[which]["evals"] += out["evals"]
+        tot[which]["nf"] += out["not_finished"]
+        keys |= out["keys"]
+        samples.extend(out["samples"])
+    for fam in states:
+        fd.mark_checked(fam, GRADING_CLAUSES, 3 * len(states[fam]))
+    for g in ["random"] + ["curve-" + c for c in CURVES]:
+        fd.mark_checked(g, GRADING_CLAUSES, tot["random"]["evals"] // (9 if g.startswith("curve") else 3))
+    chk.add_bounded("C19/bounded/states", tot["states"]["evals"], sum(1 for l in states.values() for _, n in l if n > 1),
+                    "every state of the BFS ({}) x sigma in (1, 1.5, 2), K = 4; cap 20000 leaves / {} s per call: "
+                    "{} calls not finished".format(_depth_text(depths), caps["max_seconds"], tot["states"]["nf"]),
+                    "refine_grading on the real mesh rebuilt from the history; oracle: no exception, window for every leaf, "
+                    "only refines, well_formed",
+                    [dict(init=f, history=history_short(dec_hist(l[-1][0], scales[f])), leaves=l[-1][1])
+                     for f, l in list(states.items())[:2] if l])
+    chk.add_bounded("C19/bounded/random", tot["random"]["evals"], len(keys),
+                    "{} random histories (10, 30 or {} refine_axis steps, time bias 0.2/0.5/0.8, seed {}): two thirds on "
+                    "MeshParametrized(UnitSquare/LShape/Circle) with float coordinates, one third on the exact families; x "
+                    "sigma in (1, 1.5, 2); cap 20000 leaves / {} s: {} calls not finished (never a violation)".format(
+                        n_rand, steps, seed, caps["max_seconds"], tot["random"]["nf"]),
+                    "float meshes: no exception, window, only-refines and the structural part of well_formed; exact meshes: "
+                    "full well_formed (up to 3000 leaves)", samples[:3])
+    chk.notes.append("C19 explorer: not_finished = {} (states) + {} (random)".format(tot["states"]["nf"], tot["random"]["nf"]))
+    log("grading: {} + {} evaluations, not finished {} + {}, {:.1f}s".format(
+        tot["states"]["evals"], tot["random"]["evals"], tot["states"]["nf"], tot["random"]["nf"], time.time() - t0))
+    return fd.emit(chk, prop)
+
+
+def run(chk, prop, tier, seed, verbose=False):
+    """prop in {'C02','C10','C06','C19'}; chk is a vlib.core.Check.  Runs the exploration relevant for that
+    property and records DISCHARGED/FAILED bounded obligations + add_bounded evidence.  Returns the number of
+    failed obligations recorded."""
+    def log(msg):
+        if verbose:
+            print("[mesh_explorer {} {}] {}".format(prop, tier, msg), file=sys.stderr)
+            sys.stderr.flush()
+    ctx = multiprocessing.get_context("fork")
+    pool = ctx.Pool(NPROC) if NPROC > 1 else None
+    try:
+        if prop in ("C02", "C10"):
+            return _run_structure(chk, prop, tier, seed, pool, log)
+        if prop == "C06":
+            return _run_dorfler(chk, prop, tier, seed, pool, log)
+        if prop == "C19":
+            return _run_grading(chk, prop, tier, seed, pool, log)
+        raise ValueError("mesh_explorer.run: unknown property {}".format(prop))
+    finally:
+        if pool is not None:
+            pool.terminate()
+            pool.join()
+
+
+def main(argv):
+    from vlib.core import Check
+    prop = argv[1] if len(argv) > 1 else "C02"
+    tier = argv[2] if len(argv) > 2 else "quick"
+    seed = int(os.environ.get("VERIF_SEED", "0") or 0)
+    chk = Check(prop, tier, seed, "bounded", "python -m bounded.mesh_explorer")
+    t0 = time.time()
+    run(chk, prop, tier, seed, verbose=True)
+    failed = [o for o in chk.obs if o.status == FAILED]
+    print("{} {}: {} obligations discharged, {} failed, wall {:.1f}s (repo {})".format(
+        prop, tier, sum(o.status == DISCHARGED for o in chk.obs), len(failed), time.time() - t0, REPO))
+    for name, b in chk.bounded.items():
+        print("  bounded {}: evaluations={} distinct_nontrivial={}".format(name, b["evaluations"], b["distinct_nontrivial"]))
+    for o in failed:
+        sp = o.detail.get("spec", {})
+        hist = sp.get("ops", sp.get("idx_ops"))
+        print("  FAILED {}\n     {}\n     init={} history={}".format(
+            o.name, o.detail["observed"][:300], (o.detail.get("init") or {}).get("name", o.detail.get("init"))
+            if isinstance(o.detail.get("init"), dict) else o.detail.get("init"),
+            history_short([op_parse(x) for x in hist]) if hist and "ops" in sp else hist))
+        extra = {k: sp[k] for k in ("variant", "eta", "theta", "sigma") if k in sp}
+        if extra:
+            print("     " + json.dumps(extra))
+    return 1 if failed else 0
+
+
+if __name__ == "__main__":
+    sys.exit(main(sys.argv))
